@@ -124,12 +124,11 @@ def scale_float(ctx, op, span, neg, kbits):
 def by_duration(ctx, op, other, negs, span):
     P = ctx.P
     a, va = _dur(ctx, "a", span, negs[0])
-    if op == "truediv":
-        # float quotient: the divisor is forked over a small range so that the ratio stays linear
-        vb = ctx.concrete(ctx.int("b_us", 1, 6)) * (-1 if negs[1] else 1) * 250000
-        b = (ctx.P.Duration if other == "duration" else ctx.dt.timedelta)(microseconds=vb)
-    else:
-        b, vb = _dur(ctx, "b", span, negs[1], other)
+    # the divisor is forked over a small set so that quotient and remainder stay linear (symbolic / symbolic integer
+    # division is non-linear and left z3 undecided); the dividend is fully symbolic
+    unit = 250000 if op == "truediv" else 1250003
+    vb = ctx.concrete(ctx.int("b_us", 1, 6)) * (-1 if negs[1] else 1) * unit
+    b = (ctx.P.Duration if other == "duration" else ctx.dt.timedelta)(microseconds=vb)
     ctx.assume(vb != 0)
     if op == "floordiv":
         r = a // b
@@ -189,6 +188,6 @@ def cases(tier):
         for other in ("duration", "timedelta"):
             for negs in (sg2 if tier != "quick" else [(1, 0), (0, 1)]):
                 out.append(dict(name=f"{op} by {other} {negs}", fn=by_duration, params=dict(op=op, other=other, negs=negs, span=span),
-                                bounds=f"Duration {op} {other}: operands any microsecond count up to {span} days, signs {negs}, divisor != 0"))
+                                bounds=f"Duration {op} {other}: dividend any microsecond count up to {span} days, divisor k*1250003 us (k*250000 for /), k in 1..6, signs {negs}"))
     out.append(dict(name="compare", fn=compare, params=dict(span=span), bounds=f"pairs of Durations up to {span} days, either sign"))
     return out
